@@ -185,6 +185,9 @@ def gen_filter(rng):
     commands = []
     if rng.chance(1, 3):
         commands = [rng.pick(COMMANDS)]
+    if targets and rng.chance(1, 3):
+        # a long filter: dozens of other (here: absent) targets are named too, several KB of JSON
+        targets = targets + ["services/%s/%03d" % ("x" * rng.range(40, 90), i) for i in range(rng.range(40, 80))]
     return {"stdout": so, "stderr": se, "targets": targets, "commands": commands}
 
 
@@ -436,6 +439,138 @@ def c20_stall_case(seed, model, rep):
         repo.done()
 
 
+def c20_longline_case(seed, model, rep):
+    """a line far longer than any buffer that straddles several flush ticks, next to short lines from
+    other tasks: a block never ends in the middle of a line"""
+    rng = scen.Rng(seed)
+    a, b = rng.range(70000, 140000), rng.range(20000, 60000)
+    plan = {
+        "build|app": {"steps": [[0, 1, (b"A" * a).hex()], [rng.pick([700, 1200, 1600]), 1, (b"B" * b + b"\n").hex()]]},
+        "build|app2": {"steps": [[0, 2, (b"c" * 20000).hex()], [900, 2, (b"d" * 20000 + b"\n").hex()]]},
+        "build|lib": {"steps": [[60, rng.pick([1, 2]), ("lib line %d\n" % i).encode().hex()] for i in range(30)]},
+    }
+    flt = {"stdout": True, "stderr": True, "targets": [], "commands": []}
+    repo = make_repo(plan)
+    case = {"seed": seed, "mode": "c20longline", "first_part": a, "second_part": b}
+    try:
+        tail = start_tail(repo, flt)
+        rc, j, out, err = repo.mono("run", "-c", "build", "-t", "app", "app2", "lib", "--deps", timeout=120)
+        rep.evaluations += 1
+        rep.count("longline_cases")
+        if rc != 0:
+            tail.kill()
+            rep.count("longline_case_unexpected_rc")
+            return
+        if blocks_vs_stored(repo, tail, flt, case, rep):
+            rep.nontrivial_case({"seed": seed, "mode": "longline"})
+    finally:
+        repo.done()
+
+
+def c15_stall_case(seed, model, rep):
+    """the listener stops reading for several seconds while one task floods the stream and another
+    writes its last lines and exits: nothing the tasks wrote may be missing from the stored logs"""
+    rng = scen.Rng(seed)
+    line = ("plug %s\n" % ("y" * 120)).encode()
+    n = rng.range(60000, 90000)
+    quiet_lines = [("quiet line %d\n" % i).encode() for i in range(4)]
+    plan = {"build|app": {"steps": [[0, 1, b"plug first\n".hex()]], "repeat": [[n, 1, line.hex()]]},
+            "build|app2": {"steps": [[300, 1, quiet_lines[0].hex()], [300, 1, quiet_lines[1].hex()], [400, 2, quiet_lines[2].hex()],
+                                     [200, 1, quiet_lines[3].hex()]]}}
+    expect = {("stdout", "app", "build"): b"plug first\n" + line * n,
+              ("stdout", "app2", "build"): quiet_lines[0] + quiet_lines[1] + quiet_lines[3],
+              ("stderr", "app2", "build"): quiet_lines[2]}
+    flt = {"stdout": True, "stderr": True, "targets": [], "commands": []}
+    repo = make_repo(plan)
+    stall = rng.pick([2.6, 3.2])
+    case = {"seed": seed, "mode": "c15stall", "stall_s": stall}
+    try:
+        tail = start_tail(repo, flt)
+        p = repo.popen(["run", "-c", "build", "-t", "app", "app2", "--deps"])
+        t0 = time.time()
+        while time.time() - t0 < 5 and len(tail.collected) < 100:
+            time.sleep(0.01)
+        os.kill(tail.pid, signal.SIGSTOP)
+        time.sleep(stall)
+        os.kill(tail.pid, signal.SIGCONT)
+        try:
+            out, err = p.communicate(timeout=300)
+        except subprocess.TimeoutExpired:
+            scen.kill_tree(p)
+            tail.kill()
+            rep.oracle_fail({"kind": "a log tail listener changed the outcome of the run", "case": case, "variant": "listener stalled: the run did not finish"})
+            return
+        tail.kill()
+        tail.wait()
+        rep.evaluations += 1
+        rep.count("c15_stall_cases")
+        got = show_per_key(repo, expect.keys())
+        bad = [list(k) for k in expect if got.get(k) != expect[k]]
+        if p.returncode != 0 or bad:
+            rep.oracle_fail({"kind": "a log tail listener changed the outcome of the run", "case": case,
+                             "variant": "listener stalled for %.1fs mid-run" % stall, "exit": p.returncode, "logs_that_differ": bad,
+                             "sizes": {str(k): [len(expect[k]), len(got.get(k, b""))] for k in expect}})
+            return
+        rep.nontrivial_case({"seed": seed, "mode": "stall"})
+    finally:
+        repo.done()
+
+
+def c15_restart_case(seed, model, rep):
+    """the listener is killed mid-run and a new one is started on the same port while the tasks keep
+    writing (more than a pipe holds): the run finishes with the same records as without a listener"""
+    rng = scen.Rng(seed)
+    blk = ("x" * 99 + "\n").encode() * 400          # 40 KB of lines
+    plan, expect = {}, {}
+    for t in ("app", "app2"):
+        steps = [[0, 1, ("%s start\n" % t).encode().hex()], [0, 2, ("%s start err\n" % t).encode().hex()]]
+        for k in range(10):
+            steps.append([150, 1, blk.hex()])
+            steps.append([0, 2, blk.hex()])
+        plan["build|%s" % t] = {"steps": steps}
+        expect[("stdout", t, "build")] = ("%s start\n" % t).encode() + blk * 10
+        expect[("stderr", t, "build")] = ("%s start err\n" % t).encode() + blk * 10
+    flt = {"stdout": True, "stderr": True, "targets": [], "commands": []}
+    repo = make_repo(plan)
+    case = {"seed": seed, "mode": "c15restart"}
+    try:
+        tail = start_tail(repo, flt)
+        p = repo.popen(["run", "-c", "build", "-t", "app", "app2", "--deps"])
+        time.sleep(rng.pick([0.3, 0.5]))
+        tail.kill()
+        tail.wait()
+        tail2 = None
+        try:
+            tail2 = start_tail(repo, flt)
+        except RuntimeError:
+            pass
+        try:
+            out, err = p.communicate(timeout=60)
+        except subprocess.TimeoutExpired:
+            scen.kill_tree(p)
+            scen.reap_helpers(repo)
+            if tail2:
+                tail2.kill()
+            rep.evaluations += 1
+            rep.oracle_fail({"kind": "a log tail listener changed the outcome of the run", "case": case,
+                             "variant": "listener killed and restarted mid-run: the run did not finish within 60 s"})
+            return
+        if tail2:
+            tail2.kill()
+            tail2.wait()
+        rep.evaluations += 1
+        rep.count("c15_restart_cases")
+        got = show_per_key(repo, expect.keys())
+        bad = [list(k) for k in expect if got.get(k) != expect[k]]
+        if p.returncode != 0 or bad:
+            rep.oracle_fail({"kind": "a log tail listener changed the outcome of the run", "case": case,
+                             "variant": "listener killed and restarted mid-run", "exit": p.returncode, "logs_that_differ": bad})
+            return
+        rep.nontrivial_case({"seed": seed, "mode": "restart"})
+    finally:
+        repo.done()
+
+
 def c15_case(seed, model, rep):
     rng = scen.Rng(seed)
     plan, expect = gen_plan(rng, realtime=rng.chance(1, 3))
@@ -520,7 +655,7 @@ def main():
     scen.run_cases(lambda s: fn(s, model, rep), seeds, rep, 8)
     thorough = args["tier"] == "thorough"
     extra = []
-    special = {"c08volume": c08_volume_case, "c20cancel": c20_cancel_case, "c20stall": c20_stall_case}
+    special = {"c15stall": c15_stall_case, "c15restart": c15_restart_case, "c08volume": c08_volume_case, "c20cancel": c20_cancel_case, "c20stall": c20_stall_case, "c20longline": c20_longline_case}
     for c in scen.load_corpus(args["corpus"], prop):
         cc = c.get("case", c)
         if isinstance(cc, dict) and cc.get("mode") in special and "seed" in cc:
@@ -529,9 +664,13 @@ def main():
         scen.run_cases(lambda e: e[0](e[1], model, rep), extra, rep, 3)
     elif prop == "C08":
         extra += [(c08_volume_case, rng.next()) for _ in range((6 if thorough else 1) * max(1, args["budget"]))]
+    elif prop == "C15":
+        extra += [(c15_stall_case, rng.next()) for _ in range((4 if thorough else 1) * max(1, args["budget"]))]
+        extra += [(c15_restart_case, rng.next()) for _ in range((6 if thorough else 2) * max(1, args["budget"]))]
     elif prop == "C20":
         extra += [(c20_cancel_case, rng.next()) for _ in range((20 if thorough else 3) * max(1, args["budget"]))]
         extra += [(c20_stall_case, rng.next()) for _ in range((5 if thorough else 1) * max(1, args["budget"]))]
+        extra += [(c20_longline_case, rng.next()) for _ in range((6 if thorough else 1) * max(1, args["budget"]))]
     if args["budget"] > 0:
         scen.run_cases(lambda e: e[0](e[1], model, rep), extra, rep, 3)
     j = rep.to_json()
